@@ -144,6 +144,11 @@ def check_connect(chk, repo, sup):
     return n_states
 
 
+# values that are *not* supported types but sit next to one: case variants, padding, the integers for the constant
+# types, None, the empty string, a plural.  (Only hashable values: the type is looked up in tables.)
+NEAR_MISS_TYPES = ["AND", "Buf", "INPUT", "X", " and", "not ", 0, 1, None, "", "bb_inputs", True]
+
+
 def check_add(chk, repo, sup):
     fi = repo.func(FILE, "Circuit.add")
     params = func_params(fi.node)
@@ -152,13 +157,16 @@ def check_add(chk, repo, sup):
             raise AnalysisError(f"Circuit.add lost its parameter '{need}'", FILE, fi.node.lineno)
     n_states = 0
     fails = {}
-    for t in list(sup) + ["bogus"]:
+    for t in list(sup) + ["bogus"] + NEAR_MISS_TYPES:
         for nfi in (0, 1, 2):
             for nfo in (0, 1):
                 for name in ("g", "9g"):
                     for exists in (False, True):
                         for allow in (False, True):
                             for uid in (False, True):
+                                if not isinstance(t, str) or t in NEAR_MISS_TYPES:
+                                    if name != "g" or exists or allow:
+                                        continue
                                 for missing_fi in (False, True) if nfi else (False,):
                                     for acn in (False, True) if missing_fi else (False,):
                                         n_states += 1
@@ -184,7 +192,7 @@ def check_add(chk, repo, sup):
                                                  "missing_fanin_node": missing_fi, "add_connected_nodes": acn}
                                         # reference: must be rejected with ValueError
                                         reasons = []
-                                        if t not in sup:
+                                        if not isinstance(t, str) or t not in sup:
                                             reasons.append("unknown-type")
                                         if exists and not allow and not uid:
                                             reasons.append("name-clash")
@@ -275,14 +283,14 @@ def check_set_type(chk, repo, voc):
     params = func_params(fi.node)
     bad = None
     n = 0
-    for t in list(voc["supported_types"]) + ["bogus"]:
+    for t in list(voc["supported_types"]) + ["bogus"] + NEAR_MISS_TYPES:
         for as_str in (True, False):
             c = MMutCircuit({"a": {"type": "and", "output": False}, "b": {"type": "or", "output": False}}, [])
             env = base_env(repo)
             env.update({"self": c, params[1]: "a" if as_str else ["a", "b"], params[2]: t})
             r = _run_body(fi, env, "Circuit.set_type")
             n += 1
-            want_raise = t not in voc["addable_types"]
+            want_raise = not isinstance(t, str) or t not in voc["addable_types"]
             stored = {k: v["type"] for k, v in c._attrs.items()}
             if want_raise:
                 if r != ("raise", "ValueError") or stored != {"a": "and", "b": "or"}:
